@@ -92,6 +92,9 @@ def segLine0 (st : SegSt) (line : String) : SegSt × String :=
       (st, m ++ " ## " ++ s!"{sf.length} {(crc32c sf).toNat}")
     | none => (st, m)
   | ["filehex"] => (st, toHex st.file)
+  | ["crcwalk"] =>
+    let (c, e, bad) := Spec.walk st.file
+    (st, s!"commits={c} entries={e} bad={bad}")
   | ["hdrat", off] =>
     let o := nat! off
     if o + 8 > st.file.length then (st, "out-of-file") else
@@ -132,7 +135,7 @@ def segLine (st : SegSt) (line : String) : SegSt × String :=
   | some op =>
     if ["app", "tear", "seal", "sealed", "last", "get"].contains op ∧ ¬ st.hasW then (st, "err nowriter")
     else if op = "sget" ∧ ¬ st.hasR then (st, "err noreader")
-    else if ["file", "filehex", "hdrat", "mut", "trunc", "recover", "opensealed", "dump"].contains op ∧ ¬ st.hasFile then (st, "err nofile")
+    else if ["file", "filehex", "hdrat", "crcwalk", "mut", "trunc", "recover", "opensealed", "dump"].contains op ∧ ¬ st.hasFile then (st, "err nofile")
     else segLine0 st line
   | none => (st, "bad-op")
 
